@@ -1270,7 +1270,10 @@ def _fd_update_root(
       rank,
   )
 
-  val = packed_precond
+  # As in the other root routines, hand the result back in the input dtype
+  # (python-float constants promote the sketch to float64 under
+  # jax_enable_x64, and the other lax.cond branch returns the input dtype).
+  val = jnp.asarray(packed_precond, new_grad.dtype)
   error_metrics = default_training_metrics(generate_fd_metrics).replace(
       inverse_pth_root_errors=jnp.array(0.0, jnp.float32))
   if generate_training_metrics and generate_fd_metrics:
